@@ -477,9 +477,12 @@ class BeltStore(Store):
             raise ValueError(f"Reserved item for {get_event} not found in store.")
 
         # 5) remove that object from ready_items by value
-        try:
-            self.ready_items.remove(assigned_item)
-        except ValueError:
+        # (by identity: flow items may compare equal without being the same object)
+        for pos, candidate in enumerate(self.ready_items):
+            if candidate is assigned_item:
+                del self.ready_items[pos]
+                break
+        else:
             raise ValueError(f"Item {assigned_item} not in ready_items.")
         self._update_time_averaged_level()
         return assigned_item
@@ -686,7 +689,7 @@ class BeltStore(Store):
                 print(f"T={self.env.now:.2f} Item {item_id} completed Phase 2 (reached exit)")
                 print(f"T={self.env.now:.2f} bufferstore finished moving item {item[0].id, item[1]} going to ready_items")
                 
-                item_index = self.items.index(item)
+                item_index = next(i for i, entry in enumerate(self.items) if entry is item)  # this very entry, not an equal one
                 item_to_put = self.items.pop(item_index)  # Remove the item
                 
                 if len(self.ready_items) + len(self.items) < self.capacity:
